@@ -42,6 +42,7 @@ Policy decisions (all in favour of the library where the statement is silent)
     docstrings only promise the attached namespace for read()/new_*().  This is NOT failed; it
     is probed once and recorded with ctx.note (see final report).
 """
+import collections
 import copy
 import itertools
 
@@ -1030,6 +1031,53 @@ def _history_ta(case):
 _RUN = {"treelist": _history_tl, "matrix": _history_m, "dataset": _history_ds, "treearray": _history_ta}
 
 
+def _history_from_dict(case):
+    """CharacterMatrix.from_dict into a namespace that already has members: ops = [[existing labels], [keys], flag]; the flag
+    case_sensitive_taxon_labels (documented: how string keys are matched against the namespace) decides which keys are 'equal labels'"""
+    existing, keys, flag = case["ops"][0][1:], case["ops"][1][1:], case["ops"][2][1]
+    ns, _ = _mk_ns(list(existing), cs=case.get("cs", False))
+    kw = {} if flag == "default" else {"case_sensitive_taxon_labels": flag}
+    eff = False if flag == "default" else flag
+    src = collections.OrderedDict((k, "ACGT"[i % 4] * 3) for i, k in enumerate(keys))
+    # the specification: keys in order; a key names the first member whose label equals it (exactly / ignoring case), else a new member
+    labels = list(existing)
+    rows = {}
+    for k, v in src.items():
+        hit = None
+        for i, l in enumerate(labels):
+            if (l == k) if eff else (l.lower() == k.lower()):
+                hit = i
+                break
+        if hit is None:
+            labels.append(k)
+            hit = len(labels) - 1
+        rows[hit] = v
+    fails = []
+    key = _key(case)
+    try:
+        m = DnaCharacterMatrix.from_dict(src, taxon_namespace=ns, **kw)
+    except Exception as ex:  # noqa
+        return [("from_dict.raises", "%s: %s" % (type(ex).__name__, str(ex)[:120]), key, case)]
+    got_labels = [t.label for t in N.members(ns)]
+    if got_labels != labels:
+        fails.append(("from_dict.equal_labels_one_taxon", "keys %r with case_sensitive_taxon_labels=%r into a namespace holding %r: members afterwards %r, required %r "
+                      "(a key names the first member with an equal label under the flag, else a new member)" % (list(keys), flag, list(existing), got_labels, labels), key, case))
+    else:
+        mem = N.members(ns)
+        got_rows = dict((i, m._taxon_sequence_map[t].symbols_as_string()) for i, t in enumerate(mem) if any(t is k for k in m._taxon_sequence_map))
+        if got_rows != rows:
+            fails.append(("from_dict.rows", "rows by member position %r, required %r" % (got_rows, rows), key, case))
+    for t in m._taxon_sequence_map:
+        if not any(t is x for x in N.members(ns)):
+            fails.append(("matrix.closure", "from_dict: the row of %r sits on a taxon that is not a member of the matrix's namespace" % (t.label,), key, case))
+    if N.ns_of(m) is not ns:
+        fails.append(("matrix.namespace", "from_dict(taxon_namespace=ns): the matrix is not in ns", key, case))
+    return fails
+
+
+_RUN["from_dict"] = _history_from_dict
+
+
 def _key(case):
     def f(o):
         return "(" + ",".join(f(x) if isinstance(x, list) else str(x) for x in o) + ")"
@@ -1222,6 +1270,16 @@ def t2(ctx):
             gen("dataset", ds_alphabet, (3,), "dataset=4,attached", prefix=[["attach", "abc"]]), chunk=50)
     run("treearray<=3", "every history of 1-3 TreeArray accessions (native / foreign trees through add_tree, append, insert; read)", True,
         gen("treearray", ta_alphabet, (1, 2, 3), "treearray<=3"))
+    items = []
+    for cs in (False, True):
+        for existing in ([], ["Human"], ["human", "Chimp"], ["A", "a"] if cs else ["A"]):
+            for keys in (["a", "A"], ["HUMAN", "b"], ["human", "Human", "HUMAN"], ["chimp", "x"], ["x", "X", "y"]):
+                for flag in ("default", False, True):
+                    items.append(dict(scope="matrix.from_dict@case-variants", nontrivial=True,
+                                      case=dict(what="from_dict", cs=cs, ops=[["existing"] + existing, ["keys"] + keys, ["flag", flag]])))
+    run("matrix.from_dict@case-variants", "CharacterMatrix.from_dict(keys, taxon_namespace=ns, case_sensitive_taxon_labels=flag) for 4 member sets x 5 key lists "
+        "with case variants x flag {default, False, True} x namespace case-sensitivity: a key names the first member with an equal label under the FLAG "
+        "(as documented), else becomes exactly one new member; rows sit on those taxa", True, items)
     _probe_dataset_add(ctx)
     rep.finish()
 
